@@ -381,7 +381,10 @@ func (g *Gen) check(prop, tier, outDir string, timeoutMS, seed, par int, verbose
 		fr := &FuncReport{Func: k, Notes: fv.notes, Unsupported: fv.unsupported}
 		for _, u := range fv.unsupported {
 			if strings.HasPrefix(u, "spec error") {
-				res.ToolErrors = append(res.ToolErrors, k+": "+u)
+				// a contract clause no longer resolves against the code (identifier, field or captured
+				// variable gone): the obligation cannot be generated, so the property is not established
+				res.AnchorLost = append(res.AnchorLost, &OblReport{Name: fmt.Sprintf("%s#anchor#contract-unresolved#%d", k, len(res.AnchorLost)+1), Kind: "anchor", Expect: "unsat", Verdict: "not-generated",
+					Clause: "contract of " + k + " does not resolve against the current code: " + u})
 			}
 		}
 		fr.Uncontracted = sortedKeys(fv.uncontracted)
